@@ -276,13 +276,13 @@ def _ground_atom(a, b):
     return (a[1],) + tuple(b.get(x, x) for x in a[2])
 
 
-def _reads(f, b, atoms_pos, atoms_neg, fluents):
-    """atoms / fluents a formula reads (grounded under b; quantified variables are left symbolic and expanded by the
-    caller)"""
+def _reads(f, b, atoms_pos, atoms_neg, fluents, W=None):
+    """atoms / fluents a formula reads (grounded under b; a universally quantified condition is expanded over the
+    objects of W)"""
     k = f[0]
     if k in ("and", "or"):
         for x in f[1]:
-            _reads(x, b, atoms_pos, atoms_neg, fluents)
+            _reads(x, b, atoms_pos, atoms_neg, fluents, W)
     elif k == "atom":
         atoms_pos.add(_ground_atom(f, b))
     elif k == "not":
@@ -290,8 +290,10 @@ def _reads(f, b, atoms_pos, atoms_neg, fluents):
     elif k == "cmp":
         _expr_reads(f[2], b, fluents)
         _expr_reads(f[3], b, fluents)
-    elif k == "forall":
-        pass
+    elif k == "forall" and W is not None:
+        for o, ty in W.objs.items():
+            if interp.is_sub(W.D["types"], ty, f[2]):
+                _reads(f[3], {**b, f[1]: o}, atoms_pos, atoms_neg, fluents, W)
 
 
 def _expr_reads(e, b, fluents):
@@ -311,7 +313,7 @@ def footprint(W, a, args):
     b = interp.binding(act, args)
     fp = {k: set() for k in ("add", "del", "write", "pre_pos", "pre_neg", "pre_fl", "rhs", "cond_atoms", "cond_fl",
                              "fa_add", "fa_del", "fa_write", "fa_atoms", "fa_fl")}
-    _reads(act["pre"], b, fp["pre_pos"], fp["pre_neg"], fp["pre_fl"])
+    _reads(act["pre"], b, fp["pre_pos"], fp["pre_neg"], fp["pre_fl"], W)
 
     def simple(effs, bb, pre=""):
         for e in effs:
